@@ -15,7 +15,7 @@ BASES = ['', '', 'b', 'd', 'h', 'c', 'n']
 TEXT_CHARS = [34, 92, 94, 96, 127, 32, 65, 66, 97, 122, 48, 57, 58, 59, 44, 123, 125, 35, 64]
 
 
-_KIND = st.sampled_from(['rand', 'rand', 'prefix', 'text', 'run', 'code', 'code', 'words', 'variants'])
+_KIND = st.sampled_from(['rand', 'rand', 'prefix', 'text', 'run', 'code', 'code', 'words', 'variants', 'twojumps'])
 # encodings that share one mnemonic (the additional-opcode sets): several of them side by side, with equal operands
 _VARIANT_GROUPS = [
     [[0xED, 0x44], [0xED, 0x4C], [0xED, 0x54], [0xED, 0x5C], [0xED, 0x64], [0xED, 0x6C], [0xED, 0x74], [0xED, 0x7C]],      # NEG
@@ -59,6 +59,9 @@ def segments(draw):
         return draw(_WORDS)
     if kind == 'variants':
         return [b for e in draw(_VARIANTS) for b in e]
+    if kind == 'twojumps':
+        # two conditional jumps of one block to the start of the block that follows it (position independent)
+        return [0x28, 0x04, 0xAF, 0x38, 0x01, 0xC9, 0x3E, 0x01, 0xC9]
     out = []
     for _ in range(draw(_NCODE)):
         k, b, w0, w1 = draw(_CODE)
